@@ -91,3 +91,34 @@ Theorem C13_schema_with_path_arguments : forall xs s,
     (Forall obj_self_eq s -> schema_eqb T s' s = true).
 Proof. exact C13P_schema. Qed.
 Print Assumptions C13_rule_with_path_arguments. Print Assumptions C13_schema_with_path_arguments.
+
+(* ---- rules whose condition has data paths NESTED in the list / mapping argument of a one-parameter callable ----
+   (NestedRuleIO.v: Rule.to_json_like / from_spec with the nested condition serialiser and parser of NestedIO.v; rules are
+   NestedArgs.rule_n.)  The rebuilt rule is == to the original, judges every document identically (rule_test_n, casts included)
+   and is written to the same JSON again; lists of such rules likewise, rule by rule. *)
+From Valida Require Import NestedArgs NestedIO NestedRuleIO.
+From Valida.Proofs Require Import C11NestedProof C13NestedProof.
+
+Theorem C13_rule_with_nested_path_arguments : forall st p nas t casts g,
+  path_in_c12 st = true -> st_mods st = [] -> st_src st = None ->
+  mk_path T idlit (spathterm_term st) = Ok p ->
+  tree_in_c11n nas t -> casts_in_c13 casts = true -> flag_ok casts g ->
+  let r := c13n_rule p nas t casts in
+  exists j ex r',
+    rule_n_to_json r g = Ok j /\ json_pure j = true /\
+    rule_n_from_spec j = Ok (r', ex) /\ rx_cast_given ex = g /\ rx_doc ex = VNone /\
+    r' = rule_n_back nas t r /\
+    (path_self_eq (spathterm_term st) = true -> casts_wf casts -> rule_n_eqb r' r g g = true) /\
+    (forall doc copy, rule_test_n r' doc copy = rule_test_n r doc copy) /\
+    rule_n_to_json r' g = Ok j.
+Proof. exact C13N_rule_roundtrip. Qed.
+
+Theorem C13_schema_with_nested_path_arguments : forall xs s,
+  Forall rule_in_c13n xs -> mapM mk_rule_obj_n xs = Ok s ->
+  exists j s', schema_n_to_json s = Ok j /\ json_pure j = true /\ schema_n_from_json j = Ok s' /\
+    s' = schema_n_back xs s /\
+    Forall2 rule_alike_n (map fst s') (map fst s) /\
+    schema_n_to_json s' = Ok j /\
+    (Forall obj_self_eq_n s -> schema_n_eqb s' s = true).
+Proof. exact C13N_schema. Qed.
+Print Assumptions C13_rule_with_nested_path_arguments. Print Assumptions C13_schema_with_nested_path_arguments.
